@@ -1,0 +1,866 @@
+//! Verification facade (only compiled with `--cfg fe2o3_amqp_verif`).
+//!
+//! Re-exports crate-private synchronous cores to an external harness through
+//! plain data types. Nothing in here is used by the crate itself.
+#![allow(missing_docs, missing_debug_implementations, dead_code)]
+
+use std::{
+    collections::HashMap,
+    sync::{Arc, OnceLock},
+};
+
+use bytes::Bytes;
+use fe2o3_amqp_types::{
+    definitions::{DeliveryTag, Handle, ReceiverSettleMode, Role},
+    messaging::{Accepted, DeliveryState, Modified, Rejected, Released},
+    performatives::{Begin, Detach, Disposition, Flow, Transfer},
+    states::SessionState,
+};
+use futures_util::FutureExt;
+use parking_lot::RwLock;
+use tokio::sync::{mpsc, oneshot, Notify};
+
+use crate::{
+    endpoint::{
+        IncomingChannel, InputHandle, LinkFlow, OutgoingChannel, OutputHandle,
+        Session as SessionTrait,
+    },
+    link::{
+        delivery::UnsettledMessage,
+        role,
+        state::{LinkFlowState, LinkFlowStateInner},
+        ArcReceiverUnsettledMap, ArcSenderUnsettledMap, LinkFrame, LinkRelay, UnsettledMap,
+    },
+    session::{
+        frame::{SessionFrame, SessionFrameBody, SessionOutgoingItem},
+        Session,
+    },
+    util::{Consumer, Producer},
+};
+
+/// A frame emitted by a session, flattened
+#[derive(Debug, Clone, PartialEq, Eq)]
+pub enum VFrame {
+    Transfer {
+        channel: u16,
+        handle: u32,
+        delivery_id: Option<u32>,
+        delivery_tag: Option<Vec<u8>>,
+        more: bool,
+        settled: Option<bool>,
+        payload: Vec<u8>,
+    },
+    Flow {
+        channel: u16,
+        next_incoming_id: Option<u32>,
+        incoming_window: u32,
+        next_outgoing_id: u32,
+        outgoing_window: u32,
+        handle: Option<u32>,
+        delivery_count: Option<u32>,
+        link_credit: Option<u32>,
+        available: Option<u32>,
+        drain: bool,
+        echo: bool,
+    },
+    Disposition {
+        channel: u16,
+        role_is_receiver: bool,
+        first: u32,
+        last: Option<u32>,
+        settled: bool,
+        state: Option<u8>,
+    },
+    Detach {
+        channel: u16,
+        handle: u32,
+        closed: bool,
+    },
+    Other(String),
+}
+
+/// Outcome codes used for delivery states across the facade:
+/// 0 accepted, 1 rejected, 2 released, 3 modified, 4 received (non-terminal)
+pub fn state_from_code(code: u8) -> DeliveryState {
+    match code {
+        0 => DeliveryState::Accepted(Accepted {}),
+        1 => DeliveryState::Rejected(Rejected { error: None }),
+        2 => DeliveryState::Released(Released {}),
+        3 => DeliveryState::Modified(Modified {
+            delivery_failed: None,
+            undeliverable_here: None,
+            message_annotations: None,
+        }),
+        _ => DeliveryState::Received(fe2o3_amqp_types::messaging::Received {
+            section_number: 0,
+            section_offset: 0,
+        }),
+    }
+}
+
+pub fn state_to_code(state: &DeliveryState) -> u8 {
+    match state {
+        DeliveryState::Accepted(_) => 0,
+        DeliveryState::Rejected(_) => 1,
+        DeliveryState::Released(_) => 2,
+        DeliveryState::Modified(_) => 3,
+        DeliveryState::Received(_) => 4,
+        #[allow(unreachable_patterns)]
+        _ => 5,
+    }
+}
+
+fn flatten(frame: SessionFrame) -> VFrame {
+    let channel = frame.channel;
+    match frame.body {
+        SessionFrameBody::Transfer {
+            performative,
+            payload,
+        } => VFrame::Transfer {
+            channel,
+            handle: performative.handle.0,
+            delivery_id: performative.delivery_id,
+            delivery_tag: performative.delivery_tag.map(|t| t.to_vec()),
+            more: performative.more,
+            settled: performative.settled,
+            payload: payload.to_vec(),
+        },
+        SessionFrameBody::Flow(f) => VFrame::Flow {
+            channel,
+            next_incoming_id: f.next_incoming_id,
+            incoming_window: f.incoming_window,
+            next_outgoing_id: f.next_outgoing_id,
+            outgoing_window: f.outgoing_window,
+            handle: f.handle.map(|h| h.0),
+            delivery_count: f.delivery_count,
+            link_credit: f.link_credit,
+            available: f.available,
+            drain: f.drain,
+            echo: f.echo,
+        },
+        SessionFrameBody::Disposition(d) => flatten_disposition(channel, d),
+        SessionFrameBody::Detach(d) => VFrame::Detach {
+            channel,
+            handle: d.handle.0,
+            closed: d.closed,
+        },
+        other => VFrame::Other(format!("{:?}", other)),
+    }
+}
+
+fn flatten_disposition(channel: u16, d: Disposition) -> VFrame {
+    VFrame::Disposition {
+        channel,
+        role_is_receiver: matches!(d.role, Role::Receiver),
+        first: d.first,
+        last: d.last,
+        settled: d.settled,
+        state: d.state.as_ref().map(state_to_code),
+    }
+}
+
+fn flatten_item(item: Option<SessionOutgoingItem>) -> Vec<VFrame> {
+    match item {
+        None => Vec::new(),
+        Some(SessionOutgoingItem::SingleFrame(f)) => vec![flatten(f)],
+        Some(SessionOutgoingItem::MultipleFrames(fs)) => fs.into_iter().map(flatten).collect(),
+    }
+}
+
+/// Counters of a session
+#[derive(Debug, Clone, PartialEq, Eq)]
+pub struct VSessionCounters {
+    pub initial_outgoing_id: u32,
+    pub next_outgoing_id: u32,
+    pub incoming_window: u32,
+    pub outgoing_window: u32,
+    pub next_incoming_id: u32,
+    pub need_flow_count: u32,
+    pub remote_incoming_window: u32,
+    pub remote_outgoing_window: u32,
+    pub buffered: usize,
+    pub delivery_tag_by_id: usize,
+    pub links_by_name: usize,
+    pub links_by_input_handle: usize,
+    pub output_handles: usize,
+}
+
+pub struct VSenderLink {
+    pub(crate) unsettled: ArcSenderUnsettledMap,
+    pub(crate) flow_state: Arc<LinkFlowState<role::SenderMarker>>,
+    pub(crate) rx: mpsc::Receiver<LinkFrame>,
+    pub(crate) outcomes: HashMap<Vec<u8>, oneshot::Receiver<Option<DeliveryState>>>,
+}
+
+pub struct VReceiverLink {
+    pub(crate) unsettled: ArcReceiverUnsettledMap,
+    pub(crate) flow_state: Arc<LinkFlowState<role::ReceiverMarker>>,
+    pub(crate) rx: mpsc::Receiver<LinkFrame>,
+}
+
+/// A `Session` driven synchronously
+pub struct VSession {
+    pub(crate) inner: Session,
+    pub(crate) senders: HashMap<u32, VSenderLink>,
+    pub(crate) receivers: HashMap<u32, VReceiverLink>,
+}
+
+fn session_state(code: u8) -> SessionState {
+    match code {
+        0 => SessionState::Unmapped,
+        1 => SessionState::BeginSent,
+        2 => SessionState::BeginReceived,
+        3 => SessionState::Mapped,
+        4 => SessionState::EndSent,
+        5 => SessionState::EndReceived,
+        _ => SessionState::Discarding,
+    }
+}
+
+pub fn session_state_code(s: &SessionState) -> u8 {
+    match s {
+        SessionState::Unmapped => 0,
+        SessionState::BeginSent => 1,
+        SessionState::BeginReceived => 2,
+        SessionState::Mapped => 3,
+        SessionState::EndSent => 4,
+        SessionState::EndReceived => 5,
+        SessionState::Discarding => 6,
+    }
+}
+
+impl VSession {
+    pub fn new(
+        channel: u16,
+        state: u8,
+        next_outgoing_id: u32,
+        incoming_window: u32,
+        outgoing_window: u32,
+    ) -> Self {
+        let inner = Session::builder()
+            .next_outgoing_id(next_outgoing_id)
+            .incoming_window(incoming_window)
+            .outgoing_window(outgoing_window)
+            .into_session(
+                OutgoingChannel(channel),
+                session_state(state),
+                Arc::new(OnceLock::new()),
+            );
+        Self {
+            inner,
+            senders: HashMap::new(),
+            receivers: HashMap::new(),
+        }
+    }
+
+    pub fn state(&self) -> u8 {
+        session_state_code(&self.inner.local_state)
+    }
+
+    pub fn counters(&self) -> VSessionCounters {
+        let s = &self.inner;
+        VSessionCounters {
+            initial_outgoing_id: *s.initial_outgoing_id.value(),
+            next_outgoing_id: s.next_outgoing_id,
+            incoming_window: s.incoming_window,
+            outgoing_window: s.outgoing_window,
+            next_incoming_id: s.next_incoming_id,
+            need_flow_count: s.need_flow_count,
+            remote_incoming_window: s.remote_incoming_window,
+            remote_outgoing_window: s.remote_outgoing_window,
+            buffered: s.remote_incoming_window_exhausted_buffer.len(),
+            delivery_tag_by_id: s.delivery_tag_by_id.len(),
+            links_by_name: s.link_by_name.len(),
+            links_by_input_handle: s.link_by_input_handle.len(),
+            output_handles: s.link_name_by_output_handle.len(),
+        }
+    }
+
+    /// Keys of the session's `delivery_tag_by_id` map, sorted: (role is receiver, id, input handle, tag)
+    pub fn delivery_map(&self) -> Vec<(bool, u32, u32, Vec<u8>)> {
+        let mut v: Vec<_> = self
+            .inner
+            .delivery_tag_by_id
+            .iter()
+            .map(|((r, id), (h, tag))| (matches!(r, Role::Receiver), *id, h.0, tag.to_vec()))
+            .collect();
+        v.sort();
+        v
+    }
+
+    pub fn on_incoming_begin(
+        &mut self,
+        remote_channel: u16,
+        next_outgoing_id: u32,
+        incoming_window: u32,
+        outgoing_window: u32,
+    ) -> Result<(), String> {
+        let begin = Begin {
+            remote_channel: None,
+            next_outgoing_id,
+            incoming_window,
+            outgoing_window,
+            handle_max: Handle(u32::MAX),
+            offered_capabilities: None,
+            desired_capabilities: None,
+            properties: None,
+        };
+        self.inner
+            .on_incoming_begin(IncomingChannel(remote_channel), begin)
+            .map_err(|e| format!("{:?}", e))
+    }
+
+    /// The begin frame this session would send (fields only)
+    pub fn begin_fields(&self) -> (u32, u32, u32) {
+        (
+            self.inner.next_outgoing_id,
+            self.inner.incoming_window,
+            self.inner.outgoing_window,
+        )
+    }
+
+    /// `send_begin` against a private channel; returns the frame sent
+    pub fn send_begin(&mut self) -> Result<VFrameBegin, String> {
+        let (tx, mut rx) = mpsc::channel(4);
+        self.inner
+            .send_begin(&tx)
+            .now_or_never()
+            .expect("send_begin pending")
+            .map_err(|e| format!("{:?}", e))?;
+        match rx.try_recv() {
+            Ok(SessionFrame {
+                channel,
+                body: SessionFrameBody::Begin(b),
+            }) => Ok(VFrameBegin {
+                channel,
+                remote_channel: b.remote_channel,
+                next_outgoing_id: b.next_outgoing_id,
+                incoming_window: b.incoming_window,
+                outgoing_window: b.outgoing_window,
+            }),
+            _ => Err("no begin".into()),
+        }
+    }
+
+    #[allow(clippy::too_many_arguments)]
+    pub fn on_outgoing_transfer(
+        &mut self,
+        input_handle: u32,
+        handle: u32,
+        delivery_tag: Option<Vec<u8>>,
+        settled: Option<bool>,
+        more: bool,
+        payload: Vec<u8>,
+    ) -> Result<Vec<VFrame>, String> {
+        let transfer = Transfer {
+            handle: Handle(handle),
+            delivery_id: None,
+            delivery_tag: delivery_tag.map(DeliveryTag::from),
+            message_format: Some(0),
+            settled,
+            more,
+            rcv_settle_mode: None,
+            state: None,
+            resume: false,
+            aborted: false,
+            batchable: false,
+        };
+        self.inner
+            .on_outgoing_transfer(InputHandle(input_handle), transfer, Bytes::from(payload))
+            .map(flatten_item)
+            .map_err(|e| format!("{:?}", e))
+    }
+
+    #[allow(clippy::too_many_arguments)]
+    pub fn on_incoming_flow(
+        &mut self,
+        next_incoming_id: Option<u32>,
+        incoming_window: u32,
+        next_outgoing_id: u32,
+        outgoing_window: u32,
+        link: Option<VLinkFlow>,
+    ) -> Result<Vec<VFrame>, String> {
+        let mut flow = Flow {
+            next_incoming_id,
+            incoming_window,
+            next_outgoing_id,
+            outgoing_window,
+            handle: None,
+            delivery_count: None,
+            link_credit: None,
+            available: None,
+            drain: false,
+            echo: false,
+            properties: None,
+        };
+        if let Some(l) = link {
+            flow.handle = Some(Handle(l.handle));
+            flow.delivery_count = l.delivery_count;
+            flow.link_credit = l.link_credit;
+            flow.available = l.available;
+            flow.drain = l.drain;
+            flow.echo = l.echo;
+        }
+        self.inner
+            .on_incoming_flow(flow)
+            .now_or_never()
+            .expect("on_incoming_flow pending")
+            .map(flatten_item)
+            .map_err(|e| format!("{:?}", e))
+    }
+
+    #[allow(clippy::too_many_arguments)]
+    pub fn on_incoming_transfer(
+        &mut self,
+        handle: u32,
+        delivery_id: Option<u32>,
+        delivery_tag: Option<Vec<u8>>,
+        settled: Option<bool>,
+        more: bool,
+        payload: Vec<u8>,
+    ) -> Result<(), String> {
+        let transfer = Transfer {
+            handle: Handle(handle),
+            delivery_id,
+            delivery_tag: delivery_tag.map(DeliveryTag::from),
+            message_format: Some(0),
+            settled,
+            more,
+            rcv_settle_mode: None,
+            state: None,
+            resume: false,
+            aborted: false,
+            batchable: false,
+        };
+        self.inner
+            .on_incoming_transfer(transfer, Bytes::from(payload))
+            .now_or_never()
+            .expect("on_incoming_transfer pending")
+            .map(|_| ())
+            .map_err(|e| format!("{:?}", e))
+    }
+
+    pub fn maybe_outgoing_session_flow(&mut self) -> Vec<VFrame> {
+        flatten_item(self.inner.maybe_outgoing_session_flow())
+    }
+
+    pub fn on_outgoing_flow(&mut self, l: VLinkFlow) -> Result<VFrame, String> {
+        let lf = LinkFlow {
+            handle: Handle(l.handle),
+            delivery_count: l.delivery_count,
+            link_credit: l.link_credit,
+            available: l.available,
+            drain: l.drain,
+            echo: l.echo,
+            properties: None,
+        };
+        self.inner
+            .on_outgoing_flow(lf)
+            .map(flatten)
+            .map_err(|e| format!("{:?}", e))
+    }
+
+    pub fn on_incoming_disposition(
+        &mut self,
+        role_is_receiver: bool,
+        first: u32,
+        last: Option<u32>,
+        settled: bool,
+        state: Option<u8>,
+    ) -> Result<Vec<VFrame>, String> {
+        let d = Disposition {
+            role: if role_is_receiver {
+                Role::Receiver
+            } else {
+                Role::Sender
+            },
+            first,
+            last,
+            settled,
+            state: state.map(state_from_code),
+            batchable: false,
+        };
+        let ch = self.inner.outgoing_channel.0;
+        self.inner
+            .on_incoming_disposition(d)
+            .map(|o| {
+                o.unwrap_or_default()
+                    .into_iter()
+                    .map(|d| flatten_disposition(ch, d))
+                    .collect()
+            })
+            .map_err(|e| format!("{:?}", e))
+    }
+
+    pub fn on_outgoing_disposition(
+        &mut self,
+        role_is_receiver: bool,
+        first: u32,
+        last: Option<u32>,
+        settled: bool,
+        state: Option<u8>,
+    ) -> Result<VFrame, String> {
+        let d = Disposition {
+            role: if role_is_receiver {
+                Role::Receiver
+            } else {
+                Role::Sender
+            },
+            first,
+            last,
+            settled,
+            state: state.map(state_from_code),
+            batchable: false,
+        };
+        self.inner
+            .on_outgoing_disposition(d)
+            .map(flatten)
+            .map_err(|e| format!("{:?}", e))
+    }
+
+    /// Allocate a local sender link (as `SessionControl::AllocateLink` would) and
+    /// return its output handle
+    pub fn allocate_sender_link(&mut self, name: &str) -> Result<u32, String> {
+        let (tx, rx) = mpsc::channel(1 << 16);
+        let flow_state = Arc::new(LinkFlowState::sender(LinkFlowStateInner {
+            initial_delivery_count: 0,
+            delivery_count: 0,
+            link_credit: 0,
+            available: 0,
+            drain: false,
+            properties: None,
+        }));
+        let notifier = Arc::new(Notify::new());
+        let producer = Producer::new(notifier.clone(), flow_state.clone());
+        let _consumer = Consumer::new(notifier, flow_state.clone());
+        let unsettled: ArcSenderUnsettledMap = Arc::new(RwLock::new(Some(UnsettledMap::new())));
+        let relay = LinkRelay::new_sender(tx, producer, unsettled.clone());
+        let h = self
+            .inner
+            .allocate_link(name.to_string(), Some(relay))
+            .map_err(|e| format!("{:?}", e))?;
+        self.senders.insert(
+            h.0,
+            VSenderLink {
+                unsettled,
+                flow_state,
+                rx,
+                outcomes: HashMap::new(),
+            },
+        );
+        Ok(h.0)
+    }
+
+    pub fn allocate_receiver_link(&mut self, name: &str, second: bool) -> Result<u32, String> {
+        let (tx, rx) = mpsc::channel(1 << 16);
+        let flow_state = Arc::new(LinkFlowState::receiver(LinkFlowStateInner {
+            initial_delivery_count: 0,
+            delivery_count: 0,
+            link_credit: 0,
+            available: 0,
+            drain: false,
+            properties: None,
+        }));
+        let unsettled: ArcReceiverUnsettledMap = Arc::new(RwLock::new(Some(UnsettledMap::new())));
+        let mode = if second {
+            ReceiverSettleMode::Second
+        } else {
+            ReceiverSettleMode::First
+        };
+        let relay = LinkRelay::new_receiver(tx, flow_state.clone(), unsettled.clone(), mode);
+        let h = self
+            .inner
+            .allocate_link(name.to_string(), Some(relay))
+            .map_err(|e| format!("{:?}", e))?;
+        self.receivers.insert(
+            h.0,
+            VReceiverLink {
+                unsettled,
+                flow_state,
+                rx,
+            },
+        );
+        Ok(h.0)
+    }
+
+    /// The peer's attach for a locally allocated link
+    pub fn on_incoming_attach(
+        &mut self,
+        name: &str,
+        remote_handle: u32,
+        role_is_receiver: bool,
+        rcv_second: bool,
+    ) -> Result<(), String> {
+        use fe2o3_amqp_types::performatives::Attach;
+        let attach = Attach {
+            name: name.to_string(),
+            handle: Handle(remote_handle),
+            role: if role_is_receiver {
+                Role::Receiver
+            } else {
+                Role::Sender
+            },
+            snd_settle_mode: Default::default(),
+            rcv_settle_mode: if rcv_second {
+                ReceiverSettleMode::Second
+            } else {
+                ReceiverSettleMode::First
+            },
+            source: None,
+            target: None,
+            unsettled: None,
+            incomplete_unsettled: false,
+            initial_delivery_count: Some(0),
+            max_message_size: None,
+            offered_capabilities: None,
+            desired_capabilities: None,
+            properties: None,
+        };
+        self.inner
+            .on_incoming_attach(attach)
+            .now_or_never()
+            .expect("on_incoming_attach pending")
+            .map_err(|e| format!("{:?}", e))
+    }
+
+    pub fn on_incoming_detach(&mut self, remote_handle: u32, closed: bool) -> Result<(), String> {
+        let detach = Detach {
+            handle: Handle(remote_handle),
+            closed,
+            error: None,
+        };
+        self.inner
+            .on_incoming_detach(detach)
+            .now_or_never()
+            .expect("on_incoming_detach pending")
+            .map_err(|e| format!("{:?}", e))
+    }
+
+    pub fn on_outgoing_detach(&mut self, output_handle: u32, closed: bool) -> VFrame {
+        let detach = Detach {
+            handle: Handle(output_handle),
+            closed,
+            error: None,
+        };
+        flatten(self.inner.on_outgoing_detach(detach))
+    }
+
+    pub fn deallocate_link(&mut self, output_handle: u32) {
+        self.inner.deallocate_link(OutputHandle(output_handle));
+    }
+
+    /// Register an unsettled message on a local sender link (what
+    /// `send_payload_with_transfer` does) so that dispositions can resolve it
+    pub fn sender_add_unsettled(&mut self, output_handle: u32, tag: Vec<u8>) {
+        if let Some(l) = self.senders.get_mut(&output_handle) {
+            let (tx, rx) = oneshot::channel();
+            let msg = UnsettledMessage::new(Bytes::new(), None, 0, tx);
+            let mut guard = l.unsettled.write();
+            if let Some(m) = guard.as_mut() {
+                m.insert(DeliveryTag::from(tag.clone()), msg);
+            }
+            l.outcomes.insert(tag, rx);
+        }
+    }
+
+    /// Result of polling the outcome of a registered unsettled message:
+    /// `None` = still pending; `Some(None)` = oneshot dropped/resolved without state;
+    /// `Some(Some(code))` = resolved with that state
+    pub fn sender_poll_outcome(&mut self, output_handle: u32, tag: &[u8]) -> Option<Option<u8>> {
+        let l = self.senders.get_mut(&output_handle)?;
+        let rx = l.outcomes.get_mut(tag)?;
+        match rx.try_recv() {
+            Ok(state) => Some(state.as_ref().map(state_to_code)),
+            Err(oneshot::error::TryRecvError::Empty) => None,
+            Err(oneshot::error::TryRecvError::Closed) => Some(Some(255)),
+        }
+    }
+
+    pub fn sender_unsettled_tags(&self, output_handle: u32) -> Vec<Vec<u8>> {
+        self.senders
+            .get(&output_handle)
+            .and_then(|l| {
+                l.unsettled
+                    .read()
+                    .as_ref()
+                    .map(|m| m.keys().map(|k| k.to_vec()).collect())
+            })
+            .unwrap_or_default()
+    }
+
+    pub fn receiver_add_unsettled(&mut self, output_handle: u32, tag: Vec<u8>, state: Option<u8>) {
+        if let Some(l) = self.receivers.get_mut(&output_handle) {
+            let mut guard = l.unsettled.write();
+            if let Some(m) = guard.as_mut() {
+                m.insert(DeliveryTag::from(tag), state.map(state_from_code));
+            }
+        }
+    }
+
+    pub fn receiver_unsettled_tags(&self, output_handle: u32) -> Vec<Vec<u8>> {
+        self.receivers
+            .get(&output_handle)
+            .and_then(|l| {
+                l.unsettled
+                    .read()
+                    .as_ref()
+                    .map(|m| m.keys().map(|k| k.to_vec()).collect())
+            })
+            .unwrap_or_default()
+    }
+
+    /// Frames forwarded by the session to a local receiver link since the last call:
+    /// (kind, delivery_id, payload)
+    pub fn drain_receiver_frames(&mut self, output_handle: u32) -> Vec<(String, Option<u32>, Vec<u8>)> {
+        let mut out = Vec::new();
+        if let Some(l) = self.receivers.get_mut(&output_handle) {
+            while let Ok(f) = l.rx.try_recv() {
+                match f {
+                    LinkFrame::Transfer {
+                        performative,
+                        payload,
+                        ..
+                    } => out.push(("transfer".to_string(), performative.delivery_id, payload.to_vec())),
+                    LinkFrame::Attach(_) => out.push(("attach".to_string(), None, vec![])),
+                    LinkFrame::Detach(_) => out.push(("detach".to_string(), None, vec![])),
+                    _ => out.push(("other".to_string(), None, vec![])),
+                }
+            }
+        }
+        out
+    }
+
+    pub fn drain_sender_frames(&mut self, output_handle: u32) -> Vec<String> {
+        let mut out = Vec::new();
+        if let Some(l) = self.senders.get_mut(&output_handle) {
+            while let Ok(f) = l.rx.try_recv() {
+                out.push(match f {
+                    LinkFrame::Attach(_) => "attach".to_string(),
+                    LinkFrame::Detach(_) => "detach".to_string(),
+                    _ => "other".to_string(),
+                });
+            }
+        }
+        out
+    }
+}
+
+#[derive(Debug, Clone, PartialEq, Eq)]
+pub struct VFrameBegin {
+    pub channel: u16,
+    pub remote_channel: Option<u16>,
+    pub next_outgoing_id: u32,
+    pub incoming_window: u32,
+    pub outgoing_window: u32,
+}
+
+#[derive(Debug, Clone, Default, PartialEq, Eq)]
+pub struct VLinkFlow {
+    pub handle: u32,
+    pub delivery_count: Option<u32>,
+    pub link_credit: Option<u32>,
+    pub available: Option<u32>,
+    pub drain: bool,
+    pub echo: bool,
+}
+
+/// Link flow state (sender or receiver side) driven synchronously
+pub struct VLinkFlowState {
+    pub(crate) sender: Option<Arc<LinkFlowState<role::SenderMarker>>>,
+    pub(crate) receiver: Option<Arc<LinkFlowState<role::ReceiverMarker>>>,
+}
+
+#[derive(Debug, Clone, PartialEq, Eq)]
+pub struct VLinkCounters {
+    pub initial_delivery_count: u32,
+    pub delivery_count: u32,
+    pub link_credit: u32,
+    pub available: u32,
+    pub drain: bool,
+}
+
+impl VLinkFlowState {
+    pub fn new(is_sender: bool, initial_delivery_count: u32, delivery_count: u32, link_credit: u32) -> Self {
+        let inner = LinkFlowStateInner {
+            initial_delivery_count,
+            delivery_count,
+            link_credit,
+            available: 0,
+            drain: false,
+            properties: None,
+        };
+        if is_sender {
+            Self {
+                sender: Some(Arc::new(LinkFlowState::sender(inner))),
+                receiver: None,
+            }
+        } else {
+            Self {
+                sender: None,
+                receiver: Some(Arc::new(LinkFlowState::receiver(inner))),
+            }
+        }
+    }
+
+    pub fn counters(&self) -> VLinkCounters {
+        fn c(i: &LinkFlowStateInner) -> VLinkCounters {
+            VLinkCounters {
+                initial_delivery_count: i.initial_delivery_count,
+                delivery_count: i.delivery_count,
+                link_credit: i.link_credit,
+                available: i.available,
+                drain: i.drain,
+            }
+        }
+        match (&self.sender, &self.receiver) {
+            (Some(s), _) => c(&s.lock.read()),
+            (_, Some(r)) => c(&r.lock.read()),
+            _ => unreachable!(),
+        }
+    }
+
+    fn conv(out: Option<LinkFlow>) -> Option<VLinkFlow> {
+        out.map(|f| VLinkFlow {
+            handle: f.handle.0,
+            delivery_count: f.delivery_count,
+            link_credit: f.link_credit,
+            available: f.available,
+            drain: f.drain,
+            echo: f.echo,
+        })
+    }
+
+    pub fn on_incoming_flow(&self, l: VLinkFlow, output_handle: u32) -> Option<VLinkFlow> {
+        let lf = LinkFlow {
+            handle: Handle(l.handle),
+            delivery_count: l.delivery_count,
+            link_credit: l.link_credit,
+            available: l.available,
+            drain: l.drain,
+            echo: l.echo,
+            properties: None,
+        };
+        match (&self.sender, &self.receiver) {
+            (Some(s), _) => Self::conv(s.on_incoming_flow(lf, OutputHandle(output_handle))),
+            (_, Some(r)) => Self::conv(r.on_incoming_flow(lf, OutputHandle(output_handle))),
+            _ => unreachable!(),
+        }
+    }
+
+    /// Sender side: try to take `count` credits without waiting (one iteration of
+    /// the consume loop). Returns the delivery tag bytes or `None` when credit is insufficient
+    pub fn sender_try_consume(&self, count: u32) -> Option<[u8; 4]> {
+        use crate::util::Consume;
+        let s = self.sender.as_ref().expect("sender");
+        let consumer = Consumer::new(Arc::new(Notify::new()), s.clone());
+        let fut = consumer.consume(count);
+        let mut fut = Box::pin(fut);
+        fut.as_mut().now_or_never()
+    }
+
+    /// Receiver side: consume credit for a complete delivery
+    pub fn receiver_consume(&self, count: u32) -> Result<(), String> {
+        let r = self.receiver.as_ref().expect("receiver");
+        r.consume(count).map_err(|e| format!("{:?}", e))
+    }
+}
